@@ -15,6 +15,7 @@ package hserver
 
 import (
 	"fmt"
+	"os"
 	"strings"
 	"sync"
 	"sync/atomic"
@@ -55,6 +56,7 @@ func c05Body(t *rapid.T) {
 	var aheadMsg string
 	warm := map[string]uint64{} // per pchannel: rows up to this index are not counted (streams were not yet flowing)
 	nCheckpointWrites := 0
+	var trace []string // timeline of checkpoint writes (with the number of downstream calls seen so far), printed with a violation
 	var armed atomic.Bool // the monitor judges only once the streams are flowing and the warm-up rows are excluded
 	monitor := func(op *storeOp) {
 		if op.Kind != "pos.put" {
@@ -70,6 +72,7 @@ func c05Body(t *rapid.T) {
 		nCheckpointWrites++
 		for ch, pi := range pos.Positions {
 			idx := mq.Index(pi.DataPair.GetData())
+			trace = append(trace, fmt.Sprintf("calls=%d put task=%s coll=%s ch=%s msg=%d srcTs=%d time=%d", tgt.NumCalls(), pos.TaskID[:6], colls[pos.CollectionID].name, ch, idx, pi.SourceTs, pi.Time))
 			p.mu.Lock()
 			for r, fr := range p.fed {
 				if fr.coll == pos.CollectionID && strings.HasPrefix(fr.vch, ch+"_") && fr.msgIdx <= idx && fr.msgIdx > warm[ch] && acc[r] == 0 && aheadMsg == "" {
@@ -131,6 +134,34 @@ func c05Body(t *rapid.T) {
 	if !flowing {
 		t.Fatalf("VERIF-TROUBLE: replication did not start")
 	}
+	// F-C05-resume-without-checkpoint (known finding): a channel without any persisted checkpoint is opened at the latest
+	// position again by a resume / restart. While the finding is listed, faults and crashes are generated only once every
+	// stream has its first checkpoint in the store (the cases where that needed waiting are counted as excluded).
+	excludedNoCheckpoint := 0
+	if known("F-C05-resume-without-checkpoint") {
+		allCheckpointed := func() bool {
+			have := map[string]bool{}
+			for _, id := range taskIDs {
+				for _, pos := range w.listPositions(t, id) {
+					for ch := range pos.Positions {
+						have[fmt.Sprintf("%d/%s", pos.CollectionID, ch)] = true
+					}
+				}
+			}
+			for _, s := range streams {
+				if !have[fmt.Sprintf("%d/%s", s.c.id, s.c.pch[s.shard])] {
+					return false
+				}
+			}
+			return true
+		}
+		if !allCheckpointed() {
+			excludedNoCheckpoint = 1
+			if !waitTicking(p, pchs, 10*time.Second, allCheckpointed) {
+				t.Fatalf("VERIF-TROUBLE: no first checkpoint of every stream within 10 s")
+			}
+		}
+	}
 	monMu.Lock()
 	for _, pc := range pchs {
 		warm[pc] = uint64(w.broker.Len(pc))
@@ -177,6 +208,31 @@ func c05Body(t *rapid.T) {
 				hist = append(hist, "resume")
 			}
 		}
+	}
+	dump := func() string {
+		var sb strings.Builder
+		sb.WriteString("\n--- downstream packs (seq, channel, accepted, end message index, rows)\n")
+		for _, pk := range tgt.Packs() {
+			var rows []int64
+			for _, m := range pk.Msgs {
+				rows = append(rows, m.RowIDs...)
+			}
+			if len(rows) == 0 && !strings.Contains(os.Getenv("VERIF_C05_TRACE"), "ticks") {
+				continue
+			}
+			var ends []string
+			for _, e := range pk.End {
+				ends = append(ends, fmt.Sprintf("%s:%d", e.GetChannelName(), mq.Index(e.GetMsgID())))
+			}
+			fmt.Fprintf(&sb, "seq=%d ch=%s acc=%v end=%v rows=%v\n", pk.Seq, pk.Channel, pk.Accepted, ends, rows)
+		}
+		sb.WriteString("--- checkpoint writes\n")
+		monMu.Lock()
+		for _, l := range trace {
+			sb.WriteString(l + "\n")
+		}
+		monMu.Unlock()
+		return sb.String()
 	}
 	nSteps := rapid.IntRange(4, 14).Draw(t, "steps")
 	for i := 0; i < nSteps; i++ {
@@ -284,7 +340,7 @@ func c05Body(t *rapid.T) {
 		msg := aheadMsg
 		monMu.Unlock()
 		if msg != "" {
-			t.Fatalf("VERIF-VIOLATION C05 (checkpoint ahead of acknowledged writes): %s\nhistory: %v", msg, hist)
+			t.Fatalf("VERIF-VIOLATION C05 (checkpoint ahead of acknowledged writes): %s\nhistory: %v%s", msg, hist, dump())
 		}
 	}
 	// ---- final: everything cleared, everything running, everything arrives
@@ -294,7 +350,7 @@ func c05Body(t *rapid.T) {
 	msg := aheadMsg
 	monMu.Unlock()
 	if msg != "" {
-		t.Fatalf("VERIF-VIOLATION C05 (checkpoint ahead of acknowledged writes): %s\nhistory: %v", msg, hist)
+		t.Fatalf("VERIF-VIOLATION C05 (checkpoint ahead of acknowledged writes): %s\nhistory: %v%s", msg, hist, dump())
 	}
 	if !ok {
 		if _, quiet := quiesce.WaitStable(func() int { return tgt.NumCalls() }, 6*time.Second); quiet {
@@ -332,6 +388,7 @@ func c05Body(t *rapid.T) {
 	st.ClassIf(packerMax > 1, "batched_writes")
 	st.Count("checkpoint_writes_monitored", nCheckpointWrites)
 	st.Count("rows", len(counted))
+	st.Count("cases_excluded_by_F-C05-resume-without-checkpoint(faults start after the first checkpoint of every stream)", excludedNoCheckpoint)
 	st.NonTrivial((crashes > 0 || faults > 0 || pauses > 0) && len(counted) > 0)
 	st.Fingerprint(fmt.Sprintf("%d/%v/%s", packerMax, twoTasks, strings.Join(hist, ",")))
 	st.Sample(map[string]any{"packer_max": packerMax, "two_tasks": twoTasks, "history": hist})
